@@ -1,6 +1,9 @@
 package slices
 
-import "verifcorpus/vrt"
+import (
+	"verifcorpus/ext"
+	"verifcorpus/vrt"
+)
 
 // G_Extra_SharedBacking: two source fields share one backing array; a later write to a source
 // element must not be visible through any destination slice (and vice versa).
@@ -18,5 +21,30 @@ func G_Extra_SharedBacking() {
 	vrt.AssertEqual("lengths", []int{len(dst.Same), len(dst.Shared)}, []int{1, 2})
 	dst.Same[0] = dst.Same[0] + 5
 	vrt.AssertEqual("destination-write-not-visible-in-source", src.Shared[0], base[0])
+	vrt.Reach("end")
+}
+
+// G_Extra_Unspellable: a slice whose element type the generated package cannot name is either left
+// alone (reported as unmatched) or copied into FRESH storage: never a slice over the source's array.
+func G_Extra_Unspellable() {
+	var n, a0, a1 int
+	vrt.Arbitrary("n", &n)
+	vrt.Arbitrary("a0", &a0)
+	vrt.Arbitrary("a1", &a1)
+	src := &SrcC{Bag: ext.NewBag(n, a0, a1)}
+	dst := CopyC(src)
+	vrt.AssertEqual("other-members-copied", dst.Bag.N, n)
+	if dst.Bag.Items != nil {
+		vrt.AssertEqual("length", len(dst.Bag.Items), 2)
+		vrt.AssertEqual("elements", []int{dst.Bag.At(0), dst.Bag.At(1)}, []int{a0, a1})
+		vrt.AssertNoAlias("destination-has-fresh-storage", dst, src)
+		src.Bag.Set(0, a0+1)
+		vrt.AssertEqual("later-source-write-not-visible", dst.Bag.At(0), a0)
+		dst.Bag.Set(1, a1+5)
+		vrt.AssertEqual("destination-write-not-visible-in-source", src.Bag.At(1), a1)
+	}
+	var empty SrcC
+	vrt.AssertEqual("nil-stays-nil", len(CopyC(&empty).Bag.Items), 0)
+	vrt.Assert("nil-stays-nil-not-empty", CopyC(&empty).Bag.Items == nil)
 	vrt.Reach("end")
 }
